@@ -38,10 +38,53 @@ CONSTANTS CoreB <- CoreB%(t)s
 """
 JUDGE_CFG = "SPECIFICATION Spec\nINVARIANT Verdict\n"
 MCBIG_CFG = "INIT Init\nNEXT Next\nINVARIANT NativeOK\nINVARIANT BigOK\nCONSTANT Tier = \"%s\"\n"
-# wall-clock limit of one library call (generous: the machine may be heavily oversubscribed)
-LIMIT = 20
+# Limits of one library call.  The decisive one is CPU time of the process (a mutant that loops burns
+# CPU; a process starved by other jobs on an oversubscribed machine does not); the wall-clock limit of
+# harness.common.time_limit is kept as an outer guard (a call blocked without consuming CPU).
+CPU_LIMIT = 10
+LIMIT = 150
 # after this many non-returning calls a replay chunk stops calling the library (remaining cases: "skip")
-MAX_TIMEOUTS = 3
+MAX_TIMEOUTS = 2
+
+
+class cpu_limit:
+    """with cpu_limit(s): call()  -- raises ImplTimeout after s seconds of process CPU time (main thread)."""
+
+    def __init__(self, seconds):
+        self.seconds = seconds
+
+    def _handler(self, signum, frame):
+        raise ImplTimeout("no return within %ss of CPU time" % self.seconds)
+
+    def __enter__(self):
+        import signal
+
+        self._old = signal.signal(signal.SIGPROF, self._handler)
+        signal.setitimer(signal.ITIMER_PROF, self.seconds)
+        return self
+
+    def __exit__(self, *a):
+        import signal
+
+        signal.setitimer(signal.ITIMER_PROF, 0)
+        signal.signal(signal.SIGPROF, self._old)
+        return False
+
+
+class limits:
+    """wall-clock guard (harness.common.time_limit) around a CPU-time guard"""
+
+    def __enter__(self):
+        self._w = time_limit(LIMIT)
+        self._c = cpu_limit(CPU_LIMIT)
+        self._w.__enter__()
+        self._c.__enter__()
+        return self
+
+    def __exit__(self, *a):
+        self._c.__exit__(*a)
+        self._w.__exit__(*a)
+        return False
 
 
 # ----------------------------------------------------------------------------------------
@@ -84,7 +127,7 @@ def _simplify_both(w, fe, out, proj):
         cur = fe
         for stage in (o, o["rr"]):
             try:
-                with time_limit(LIMIT):
+                with limits():
                     r = f(cur)
                     stage["r"] = proj(r)
                 stage["k"] = "ok"
@@ -108,7 +151,7 @@ def run_case(w, e):
     that is C14 / C16 territory, not judged here)."""
     out = _blank()
     try:
-        with time_limit(LIMIT):
+        with limits():
             fe = upj.b_expr(e, w.sc)
             out["e0"] = upj.p_expr(fe)
     except ImplTimeout:
@@ -192,7 +235,7 @@ def run_big_case(w, e):
         out[V]["r"] = BDUMMY
         out[V]["rr"]["r"] = BDUMMY
     try:
-        with time_limit(LIMIT):
+        with limits():
             fe = b_big(e, w)
             out["e0"] = p_big(fe)
     except ImplTimeout:
@@ -223,7 +266,7 @@ def _replay_chunk(arg):
         else:
             # A wall-clock time-out on an oversubscribed machine may be starvation, not a loop in the
             # library: when the process received little CPU during the case, it is run again (fresh World).
-            for attempt in range(3):
+            for attempt in range(4):
                 c0 = time.process_time()
                 o, dirty = (run_big_case if big else run_case)(w, e)
                 if dirty:
@@ -231,7 +274,7 @@ def _replay_chunk(arg):
                 timed_out = o["built"]["exc"] == "TIMEOUT" or any(
                     st["exc"] == "TIMEOUT" for V in ("E", "P") for st in (o[V], o[V]["rr"])
                 )
-                if not timed_out or time.process_time() - c0 >= LIMIT / 4.0:
+                if not timed_out or time.process_time() - c0 >= CPU_LIMIT * 0.9:
                     break
             ntimeouts += sum(1 for V in ("E", "P") for st in (o[V], o[V]["rr"]) if st["exc"] == "TIMEOUT")
         o["id"], o["fam"] = cid, fam
